@@ -13,10 +13,15 @@
          least one whenever AllMoves holds a legal move (hint de-duplication loses nothing).
      (3) C04_root_first_move_legal / C04_root_improved_first_move_legal: the root invariant of pvSearch for an
          ARBITRARY search below the root, table entry, hints, stale PV buffer, symmetry de-duplication.
-     (4) C04_analyze_first_move_legal_partial: (1)+(2)+(3) instantiated with the bit-level rules model.
+     (4) C04_analyze_first_move_legal_partial: (1)+(2)+(3) instantiated with the bit-level rules model (abstract root search).
+     (4') C04_analyze_first_move_legal (block (8) at the end): the statement for the EXECUTED engine model coq/Search.v (validated
+         against ai/minimax.go + ai/moves.go on every ./check C05/C16 run): every configuration, any table, any cancellation point, any
+         engine history; the window hypothesis is derived from C18 and (1), the seed path is covered by an explicit NoCollision
+         hypothesis on the root's table entry.
      (5) C04_deepening_keeps_legal_head, C04_randomised_choice_legal, C04_analyze_all_heads_legal: the iterative
          deepening loop, the randomised choice and the AnalyzeAll list only ever report pv[0] or generator-yielded moves.
-   `_partial` = WHAT IS MISSING for the full statement:
+   `_partial` = WHAT IS MISSING in (2)-(5) (all three points are closed by (4') for Analyze; GetMove's randomised choice and
+   AnalyzeAll remain abstract):
      - the root-search model of LegalMove.v is abstract and NOT executed against ai/minimax.go (the executed search
        model is coq/Search.v, owned by C05/C16); its shape was transcribed from pvSearch / moveGenerator.Next by hand;
      - the hypothesis "every child value exceeds the root's alpha" (root window (MinEval-1, MaxEval+1) wider than
@@ -34,6 +39,7 @@ From Coq Require Import NArith ZArith List Bool.
 Require Import Board Move GameOver Refine RefinePlace2 Inst LegalMove LegalMoveLive LegalMoveInst.
 Require Mcts MctsFacts MctsFacts2 MctsFacts3 MctsFacts4 MctsFacts5 PtnFileSafe.
 Require Opening OpeningFacts1 OpeningFacts2 OpeningFacts OpeningFacts3 OpeningEx AllMovesFacts5 Preserve1 Preserve5 TpsFacts5 Generated.Consts.
+Require Search SearchExact SearchInst SearchC CancelEx Reach1 Alloc EvalSpec SearchNeg2 SearchNeg5 SearchLegal2 SearchLegal3 SearchLegal4.
 Import ListNotations.
 
 (* (1) A live position has a legal move and AllMoves lists it.  wf: sizes 3..8, Height/Stacks of length size^2,
@@ -392,3 +398,115 @@ Theorem C04_opening_player_no_panic :
   exists m j, Opening.opening_player_get_move b inner p rnd i = Ok (m, j).
 Proof. exact OpeningFacts3.opening_player_no_panic. Qed.
 Print Assumptions C04_opening_player_no_panic.
+
+
+(* ---- (8) Analyze of the alpha-beta engine, EXECUTED model coq/Search.v (ai/minimax.go + ai/moves.go; replayed against the code on
+   every ./check C05 / C16 run, all 17 Stats counters included) ----
+   Search.analyze_cancel gen_basis cfg k s p = (sk, (pv, v, d, acc, c)): MinimaxAI.Analyze on the engine state s (table, history and
+     response tables, frames: whatever earlier calls left), context cancelled inside the k-th leaf evaluation (k = 0: never);
+     result: line pv, value v, Stats.Depth d, Stats.Canceled c; sk = the engine state afterwards.
+   cfg: ANY configuration (depth, NoSort, NoNullMove, NoReduceSlides, MultiCut on or off; table of any size, also none) whose evaluator
+     is one of the two of the check (SearchNeg5.builtin_eval: EvaluateWinner or the built-in weights).
+   SearchLegal2.SJ s: the engine-state invariant - no Pass among the moves the state can supply as hints (table moves, response
+     moves, PV buffers), table values inside the root window.  Search.new_state n satisfies it for every table size n
+     (C04_engine_invariant_fresh) and every Analyze call preserves it (first conjunct below): it holds after ANY history of calls.
+   SearchNeg2.base_ok p: Preserve1.pos_ok p (C01's invariant) /\ at most 255 pieces in the game /\ 0 <= move p /\ the stones of the two
+     opening plies exist.  Search.is_over p = false: GameOver says the game is not over.
+   SearchLegal3.withinP d p: in the tree of depth d below p (moves and null moves; finished games are not expanded) every node has at
+     most 690 generated moves (the loop fuel of the MODEL is 700; the Go code has no such limit) and no accepted move builds a stack
+     higher than 64 (C01's representation limit).  Proved outright for boards up to 5x5 with at most 51 pieces (withinP_small), which
+     gives C04_analyze_first_move_legal_small / _game without it.
+   move p + c_depth cfg <= max_terminal_ply (2 684 354): C18's ply limit for the built-in evaluator.
+   SearchLegal3.seed_legal s p: NoCollision at the root, stated on the table - IF the table holds an exact entry under the root's hash,
+     its move is accepted by MovePreallocated at the root.  (Analyze seeds its line with that move and never re-validates it when no
+     iteration runs; an entry written for the same position always satisfies this, C04_example_table shows the path taken.)
+   SearchLegal3.head_legal p pv: pv = m :: rest and Refine.mv p m = Ok q (the repaired MovePreallocated accepts m at p).
+   STATEMENT: the state afterwards satisfies SJ again; a reported line is empty or starts with a legal move; and a call that is not
+   reported as cancelled, with a positive configured depth, reports a line (so MinimaxAI.GetMove's pv[0] exists and is legal). *)
+Theorem C04_analyze_first_move_legal : forall cfg, SearchNeg5.builtin_eval cfg ->
+  forall k s p sk pv v d acc c,
+  SearchLegal2.SJ s -> SearchNeg2.base_ok p -> Search.is_over p = false ->
+  SearchLegal3.withinP (Z.to_nat (Search.c_depth cfg)) p -> (move p + Search.c_depth cfg <= EvalSpec.max_terminal_ply)%Z ->
+  SearchLegal3.seed_legal s p ->
+  Search.analyze_cancel Generated.Consts.gen_basis cfg k s p = (sk, (pv, v, d, acc, c)) ->
+  SearchLegal2.SJ sk /\ (pv = [] \/ SearchLegal3.head_legal p pv) /\
+  (c = false -> (0 < Search.c_depth cfg)%Z -> SearchLegal3.head_legal p pv).
+Proof. exact SearchLegal3.analyze_first_move_legal_seed. Qed.
+Print Assumptions C04_analyze_first_move_legal.
+
+(* the same without the seed hypothesis: (base, ms0, v0) = the seed Analyze takes from the table (Search.az_root; (0, [], 0) without an
+   exact root entry).  The reported line is still the seed exactly when the reported depth is still the seed's; otherwise it starts
+   with a legal move; a call not reported as cancelled that was allowed an iteration beyond the seed's depth has completed one. *)
+Theorem C04_analyze_line_is_seed_or_legal : forall cfg, SearchNeg5.builtin_eval cfg ->
+  forall k s p sk pv v d acc c,
+  SearchLegal2.SJ s -> SearchNeg2.base_ok p -> Search.is_over p = false ->
+  SearchLegal3.withinP (Z.to_nat (Search.c_depth cfg)) p -> (move p + Search.c_depth cfg <= EvalSpec.max_terminal_ply)%Z ->
+  Search.analyze_cancel Generated.Consts.gen_basis cfg k s p = (sk, (pv, v, d, acc, c)) ->
+  let '(base, ms0, v0) := Search.az_root false (Search.az_start s) p in
+  SearchLegal2.SJ sk /\ ((d = base /\ pv = ms0) \/ (base < d)%Z /\ SearchLegal3.head_legal p pv) /\
+  (c = false -> (base < Search.c_depth cfg)%Z -> (base < d)%Z).
+Proof. exact SearchLegal3.analyze_first_move_legal. Qed.
+Print Assumptions C04_analyze_line_is_seed_or_legal.
+
+(* engines without a table (SearchExact.SI: no table, no Pass among the stored hints): no seed, no NoCollision hypothesis *)
+Theorem C04_analyze_first_move_legal_no_table : forall cfg, SearchNeg5.builtin_eval cfg ->
+  forall k s p sk pv v d acc c,
+  SearchExact.SI s -> SearchNeg2.base_ok p -> Search.is_over p = false ->
+  SearchLegal3.withinP (Z.to_nat (Search.c_depth cfg)) p -> (move p + Search.c_depth cfg <= EvalSpec.max_terminal_ply)%Z ->
+  Search.analyze_cancel Generated.Consts.gen_basis cfg k s p = (sk, (pv, v, d, acc, c)) ->
+  (pv = [] \/ SearchLegal3.head_legal p pv) /\ (c = false -> (0 < Search.c_depth cfg)%Z -> SearchLegal3.head_legal p pv).
+Proof. exact SearchLegal3.analyze_first_move_legal_notable. Qed.
+Print Assumptions C04_analyze_first_move_legal_no_table.
+
+(* boards up to 5x5 with at most 51 pieces (the standard sets have 20, 30, 44): no side condition about the searched tree is left *)
+Theorem C04_analyze_first_move_legal_small : forall cfg, SearchNeg5.builtin_eval cfg ->
+  forall k s p sk pv v d acc c,
+  SearchLegal2.SJ s -> SearchNeg2.base_ok p -> Search.is_over p = false -> (size p <= 5)%N -> (Preserve1.total p <= 51)%N ->
+  (move p + Search.c_depth cfg <= EvalSpec.max_terminal_ply)%Z ->
+  SearchLegal3.seed_legal s p ->
+  Search.analyze_cancel Generated.Consts.gen_basis cfg k s p = (sk, (pv, v, d, acc, c)) ->
+  SearchLegal2.SJ sk /\ (pv = [] \/ SearchLegal3.head_legal p pv) /\
+  (c = false -> (0 < Search.c_depth cfg)%Z -> SearchLegal3.head_legal p pv).
+Proof. exact SearchLegal4.analyze_first_move_legal_small. Qed.
+Print Assumptions C04_analyze_first_move_legal_small.
+
+(* ... in particular on every live position of a game replayed from tak.New (sizes 3..5, any piece set of at most 51 pieces) *)
+Theorem C04_analyze_first_move_legal_game : forall cfg, SearchNeg5.builtin_eval cfg ->
+  forall sz bwt stones caps ms p, (3 <= sz <= 5)%N -> (0 < stones)%N -> (2 * (stones + caps) <= 51)%N ->
+  Reach1.replay (Alloc.new_pos sz bwt stones caps) ms = Ok p -> Search.is_over p = false ->
+  (Z.of_nat (length ms) + Search.c_depth cfg <= EvalSpec.max_terminal_ply)%Z ->
+  forall k s sk pv v d acc c, SearchLegal2.SJ s -> SearchLegal3.seed_legal s p ->
+  Search.analyze_cancel Generated.Consts.gen_basis cfg k s p = (sk, (pv, v, d, acc, c)) ->
+  SearchLegal2.SJ sk /\ (pv = [] \/ SearchLegal3.head_legal p pv) /\
+  (c = false -> (0 < Search.c_depth cfg)%Z -> SearchLegal3.head_legal p pv).
+Proof. exact SearchLegal4.analyze_first_move_legal_game. Qed.
+Print Assumptions C04_analyze_first_move_legal_game.
+
+(* a fresh engine satisfies the invariant, whatever the size of its table *)
+Theorem C04_engine_invariant_fresh : forall n, SearchLegal2.SJ (Search.new_state n).
+Proof. exact SearchLegal2.SJ_new. Qed.
+Print Assumptions C04_engine_invariant_fresh.
+
+(* the side condition on small boards, null moves included *)
+Theorem C04_within_small : forall d p, Preserve1.pos_ok p -> (size p <= 5)%N -> (Preserve1.total p <= 51)%N -> SearchLegal3.withinP d p.
+Proof. exact SearchLegal3.withinP_small. Qed.
+Print Assumptions C04_within_small.
+
+(* Non-vacuity, computed on the instantiated model: q4 = the 3x3 position after a1 c3 b2 b1; cfgA = depth 4, sorted, null move, slide
+   reduction and multi-cut ON, built-in evaluator, 64-entry table.  The hypotheses hold; the first call reports a depth-4 line; the
+   second call on the same engine finds the exact root entry of depth 4, runs no iteration and reports the seed [c1] - the path that
+   seed_legal covers. *)
+Theorem C04_example_table :
+  SearchNeg5.builtin_eval SearchLegal4.cfgA /\ SearchLegal2.SJ (Search.new_state 64) /\ SearchLegal3.seed_legal (Search.new_state 64) SearchNeg5.q4 /\
+  CancelEx.obs SearchLegal4.ex_r1 =
+    ([{| mX := 2; mY := 0; mT := 2; mS := 0 |}; {| mX := 1; mY := 0; mT := 6; mS := 1 |};
+      {| mX := 1; mY := 0; mT := 2; mS := 0 |}; {| mX := 2; mY := 0; mT := 5; mS := 2 |}], 500%Z, 4%Z, false) /\
+  Search.az_root false (Search.az_start (fst SearchLegal4.ex_r1)) SearchNeg5.q4 = (4%Z, [{| mX := 2; mY := 0; mT := 2; mS := 0 |}], 500%Z) /\
+  CancelEx.obs SearchLegal4.ex_r2 = ([{| mX := 2; mY := 0; mT := 2; mS := 0 |}], 500%Z, 4%Z, false).
+Proof. exact SearchLegal4.ex_table. Qed.
+Print Assumptions C04_example_table.
+
+Theorem C04_example_position : SearchNeg2.base_ok SearchNeg5.q4 /\ size SearchNeg5.q4 = 3%N /\ Preserve1.total SearchNeg5.q4 = 20%N /\
+  Search.is_over SearchNeg5.q4 = false /\ move SearchNeg5.q4 = 4%Z.
+Proof. exact SearchLegal4.q4_facts. Qed.
+Print Assumptions C04_example_position.
